@@ -143,3 +143,32 @@ package keeper
 //@   requires #params: k.GetGenericLiquidityParams(ctx, order.AppId).1 && k.GetGenericLiquidityParams(ctx, order.AppId).0.SwapFeeRate >= 0 && k.GetGenericLiquidityParams(ctx, order.AppId).0.SwapFeeRate <= ONE
 //@   requires #accounts: addr(pr.EscrowAddress) != addr(pr.SwapFeeCollectorAddress) && addr(order.Orderer) != addr(pr.EscrowAddress) && addr(order.Orderer) != addr(pr.SwapFeeCollectorAddress)
 //@   ensures #c07-cancel-all-visits-every-order: result0 == false
+
+// Withdraw request (C04): the pool coins to be withdrawn move from the withdrawer into the global escrow account and the
+// pending request records exactly that coin; only the pool's own coin is accepted and never for a disabled pool.
+//@ func (k Keeper) Withdraw
+//@   property C04
+//@   let ge = types.GlobalEscrowAddress
+//@   let w = addr(msg.Withdrawer)
+//@   let d = msg.PoolCoin.Denom
+//@   requires #params-exist: k.GetGenericLiquidityParams(ctx, msg.AppId).1
+//@   requires #accounts: w != ge
+//@   requires #pool-keyed: k.GetPool(ctx, msg.AppId, msg.PoolId).1 ==> k.GetPool(ctx, msg.AppId, msg.PoolId).0.Id == msg.PoolId && k.GetPool(ctx, msg.AppId, msg.PoolId).0.AppId == msg.AppId
+//@   ensures #c04-withdraw-escrowed: result1 == nil ==> bal(ge, d) == old(bal(ge, d)) + msg.PoolCoin.Amount && bal(w, d) == old(bal(w, d)) - msg.PoolCoin.Amount
+//@   ensures #c04-withdraw-request-records-escrow: result1 == nil ==> result0.PoolCoin == msg.PoolCoin && result0.Withdrawer == msg.Withdrawer && result0.PoolId == msg.PoolId && result0.AppId == msg.AppId && k.GetWithdrawRequest(ctx, msg.AppId, msg.PoolId, result0.Id).1 && k.GetWithdrawRequest(ctx, msg.AppId, msg.PoolId, result0.Id).0 == result0
+//@   ensures #c04-withdraw-pool-coin-only: result1 == nil ==> d == old(k.GetPool(ctx, msg.AppId, msg.PoolId).0.PoolCoinDenom) && !old(k.GetPool(ctx, msg.AppId, msg.PoolId).0.Disabled)
+
+// Finishing a withdraw request (C04): a finished request is final (a second call changes nothing, so escrowed pool coins
+// are released once); a failed request gets exactly its escrowed pool coin back out of the global escrow, a succeeded one
+// gets nothing back (its pool coin was burned by the caller); the status is stored.
+//@ func (k Keeper) FinishWithdrawRequest
+//@   property C04
+//@   let R = req
+//@   let ge = types.GlobalEscrowAddress
+//@   let w = addr(req.Withdrawer)
+//@   let d = req.PoolCoin.Denom
+//@   requires #accounts: w != ge
+//@   ensures #c04-finished-request-is-final: R.Status != types.RequestStatusNotExecuted ==> result == nil && unchanged()
+//@   ensures #c04-failed-withdraw-refunds-escrow: result == nil && R.Status == types.RequestStatusNotExecuted && status == types.RequestStatusFailed && R.PoolCoin.Amount > 0 ==> bal(ge, d) == old(bal(ge, d)) - R.PoolCoin.Amount && bal(w, d) == old(bal(w, d)) + R.PoolCoin.Amount
+//@   ensures #c04-succeeded-withdraw-moves-nothing: result == nil && R.Status == types.RequestStatusNotExecuted && status != types.RequestStatusFailed ==> forall a, dd :: bal(a, dd) == old(bal(a, dd))
+//@   ensures #c04-status-stored: result == nil && R.Status == types.RequestStatusNotExecuted ==> k.GetWithdrawRequest(ctx, R.AppId, R.PoolId, R.Id).1 && k.GetWithdrawRequest(ctx, R.AppId, R.PoolId, R.Id).0.Status == status
